@@ -105,7 +105,13 @@ func pruneEmpty(dst, src proto.Message, mask fmutils.NestedMask) {
 			return true
 		}
 		if !srcPr.Has(d) {
-			dstPr.Clear(d)
+			if len(fieldMask) == 0 {
+				// the mask names the whole field
+				dstPr.Clear(d)
+			} else if d.Kind() == protoreflect.MessageKind && d.Cardinality() != protoreflect.Repeated {
+				// the mask only names parts of the field, leave the rest of it alone
+				fieldMask.Prune(dstPr.Get(d).Message().Interface())
+			}
 			return true
 		}
 		if d.Kind() == protoreflect.MessageKind && d.Cardinality() != protoreflect.Repeated {
